@@ -1,4 +1,5 @@
 import ScriggoV.Lemmas.Scopes
+import ScriggoV.Lemmas.EnvPool
 /-! C19 — code can reach only the host functionality the embedder supplies.
 
 Property theorems only (model: `Model/Scopes.lean`, lemmas: `Lemmas/Scopes.lean`). The universe
@@ -8,7 +9,13 @@ definitions of `Gen/Universe.lean`, regenerated from /repo on every check.
 Not covered (DESIGN.md §7 C19): what a supplied *value* lets code do through its own methods, its
 function-typed fields or the functions it returns — at run time `OpCallIndirect` calls whatever
 function value such a supplied value yields; the model confines the *names* code can resolve, and
-the harness observes the supplied functions that actually run. -/
+the harness observes the supplied functions that actually run.
+
+Second part (`ScriggoV.EnvPool`, model: `Model/EnvPool.lean` over the run histories of
+`Model/Runs.lean`): *which* print hook / context a supplied function reaches — the ones of the run
+that calls it, for every history of runs of one built artefact, whatever earlier runs left in the
+pooled argument slices. The way `callNative` fills a pooled slice and the way a VM gets its env are
+the definitions of `Gen/NativeEnv.lean`, regenerated from /repo on every check. -/
 namespace ScriggoV.Scopes
 open ScriggoV.Gen.Universe
 
@@ -97,3 +104,95 @@ example : lookup (State.init ⟨none, [], [⟨"len", .func, []⟩], false⟩ tru
     = some ⟨.func, .global, []⟩ := by decide
 
 end ScriggoV.Scopes
+
+namespace ScriggoV.EnvPool
+open ScriggoV.Gen.NativeEnv
+open ScriggoV.Runs
+
+/-- **C19, the code's treatment of per-run data on the way to a native call** (decide over the
+regenerated facts): in `callNative` each of the three classes of slots of the pooled argument
+slice — `native.Env`, ordinary, variadic — is written on every path through its branch of the fill
+loop; what goes into an env slot is `vm.envArg`; `envArg` is `reflect.ValueOf` of the VM's `env`
+at each of the places that assign either, and no VM literal sets them; every `create` gives the
+new VM the env of the VM creating it (`NewVM` alone makes a new one, `(*callable).Value` is only
+ever handed `vm.env`); the `Call`/`CallSlice` come after the fill loop and are handed the slice. -/
+theorem code_rules_sound : codeRules.Sound := by decide
+
+/-- **C19, every pooled slot that holds per-run data is overwritten before use.** Under sound
+rules what the callee is handed does not depend on what the pooled slice held. -/
+theorem every_pooled_slot_overwritten (R : Rules) (hR : R.Sound) (e : Nat) (input : Int)
+    (sig : List SlotClass) (old old' : List Slot) (as : List Int) :
+    fillSlice R e input sig old as = fillSlice R e input sig old' as := by
+  rw [fillSlice_always R hR.fillOf, fillSlice_always R hR.fillOf]
+
+/-- **C19, the env a native call observes in run `i` is the env of run `i`** — for every history:
+any artefact (any native signatures, any sequence of native calls from the run's VM, from goroutine
+VMs and from callback VMs, synchronous or started with `go`), any contents of the pools (whatever
+earlier runs left there), any number of runs with any envs and inputs, any schedule. Every
+observation `(i, o)` of the trace was made by a callee that found exactly the arguments run `i`
+passes (`got = want`), and every `native.Env` among them is the env of run `i`. -/
+theorem native_env_is_run_env (R : Rules) (hR : R.Sound) (s : Sys (machine R))
+    (htr : s.trace = []) (hpend : ∀ l ∈ s.ls, ∀ p ∈ l.inflight, Seen.Good l.env p)
+    (sched : List Nat) :
+    ∀ p ∈ (runSched sched s).trace, ∃ l₀ : EnvPool.Run,
+      s.ls[p.1]? = some l₀ ∧ p.2.got = p.2.want ∧ ∀ e ∈ envsOf p.2.got, e = l₀.env := by
+  have h0 : Inv R s s := by
+    refine ⟨fun i l hl => ⟨l, hl, rfl, hpend l (List.mem_of_getElem? hl)⟩, fun p hp => ?_⟩
+    rw [htr] at hp; cases hp
+  intro p hp
+  obtain ⟨l₀, hl₀, hg, he⟩ := (inv_runSched hR s sched s h0).2 p hp
+  exact ⟨l₀, hl₀, hg, by rw [hg]; exact he⟩
+
+/-- … and so for the code as it is -/
+theorem code_native_env_is_run_env (s : Sys (machine codeRules))
+    (htr : s.trace = []) (hpend : ∀ l ∈ s.ls, ∀ p ∈ l.inflight, Seen.Good l.env p)
+    (sched : List Nat) :
+    ∀ p ∈ (runSched sched s).trace, ∃ l₀ : EnvPool.Run,
+      s.ls[p.1]? = some l₀ ∧ p.2.got = p.2.want ∧ ∀ e ∈ envsOf p.2.got, e = l₀.env :=
+  native_env_is_run_env codeRules code_rules_sound s htr hpend sched
+
+def soundRules : Rules := ⟨.always, .always, .always, true, true, true, true⟩
+
+/-- non-vacuity: two runs, a pool holding the env of some run 7, an interleaved schedule, a
+synchronous call and one started with `go` from a callback VM — each callee is handed its own
+run's env and arguments -/
+example :
+    (runSched [1, 0, 1, 0, 1, 0]
+      (⟨⟨[[.env, .reg]], [⟨0, .main, false, [0, 10]⟩, ⟨0, .callback, true, [0, 20]⟩], [[[.env 7, .val 0]]]⟩,
+        [{ env := 0, input := 0 }, { env := 1, input := 1 }], []⟩ : Sys (machine soundRules))).trace
+    = [(1, ⟨0, [.env 1, .val 11], [.env 1, .val 11]⟩), (0, ⟨0, [.env 0, .val 10], [.env 0, .val 10]⟩),
+       (1, ⟨0, [.env 1, .val 21], [.env 1, .val 21]⟩), (0, ⟨0, [.env 0, .val 20], [.env 0, .val 20]⟩)] := by
+  decide
+
+/-- **the hypothesis is needed (1).** If the env slot is written only while it is still empty —
+"the env does not change during the execution" — the second run of a built artefact calls its
+native function with the env of the first run: its print hook, its context. -/
+theorem env_written_only_if_empty_is_stale :
+    (runSched [0, 1] (freshSys { soundRules with envFill := .ifEmpty } [[.env, .reg]]
+      [⟨0, .main, false, [0, 5]⟩] 2)).trace
+    = [(0, ⟨0, [.env 0, .val 5], [.env 0, .val 5]⟩), (1, ⟨0, [.env 0, .val 6], [.env 1, .val 6]⟩)] := by
+  decide
+
+/-- **the hypothesis is needed (2).** The same for an ordinary argument that is not rewritten, … -/
+theorem arg_not_rewritten_is_stale :
+    ((runSched [0, 1] (freshSys { soundRules with regFill := .never } [[.env, .reg]]
+      [⟨0, .main, false, [0]⟩] 2)).trace.map fun p => (p.1, p.2.got))
+    = [(0, [.env 0, .empty]), (1, [.env 1, .empty])] := by
+  decide
+
+/-- **(3)** … for a callback VM that would not inherit the env of the VM calling the native
+function that calls back, … -/
+theorem spawned_vm_with_other_env_is_foreign :
+    ((runSched [0] (freshSys { soundRules with spawnInherits := false } [[.env]]
+      [⟨0, .callback, false, []⟩] 1)).trace.map fun p => (p.1, p.2.got))
+    = [(0, [.env 1])] := by
+  decide
+
+/-- **(4)** … and for a call made before the slice is filled. -/
+theorem call_before_fill_is_stale :
+    ((runSched [0, 1] (freshSys { soundRules with fillBeforeCall := false } [[.env]]
+      [⟨0, .main, false, []⟩] 2)).trace.map fun p => (p.1, p.2.got))
+    = [(0, []), (1, [.env 0])] := by
+  decide
+
+end ScriggoV.EnvPool
